@@ -7,6 +7,7 @@ import (
 	"go/constant"
 	"go/token"
 	"go/types"
+	"sort"
 	"strconv"
 	"strings"
 
@@ -468,6 +469,29 @@ func (env *specEnv) dollar(name string) (Val, error) {
 			}
 		}
 		return Val{}, fmt.Errorf("$i: not a range loop")
+	case "outer", "outer2", "outer3":
+		// $outer: index of the current iteration (= number of completed iterations) of the enclosing range loop
+		depth := 1
+		if len(name) > 5 {
+			depth = int(name[5] - '0')
+		}
+		var encl []*loopInfo
+		for _, o := range env.a.loops {
+			if o != li && o.blocks[li.head] {
+				encl = append(encl, o)
+			}
+		}
+		sort.Slice(encl, func(i, j int) bool { return len(encl[i].blocks) < len(encl[j].blocks) })
+		if depth > len(encl) {
+			return Val{}, fmt.Errorf("$%s: no such enclosing loop", name)
+		}
+		o := encl[depth-1]
+		if o.rangeIdx != nil {
+			if v, ok := env.st.locals[o.rangeIdx]; ok && v.T != nil {
+				return Val{Typ: tInt, T: []Term{v.T[0]}}, nil
+			}
+		}
+		return Val{}, fmt.Errorf("$%s: the enclosing loop is not a range-over-slice loop", name)
 	}
 	return Val{}, fmt.Errorf("unknown $%s", name)
 }
@@ -888,6 +912,12 @@ func (env *specEnv) call(x *Expr) (Val, error) {
 		}
 		k, _ := strconv.Atoi(vs[0].T[0].S)
 		return env.callArg(k)
+	case "entry":
+		// entry(e): e evaluated in the state in which the current loop was entered
+		if env.loop == nil || env.loop.pre == nil || len(args) != 1 {
+			return Val{}, fmt.Errorf("entry(e) is only available in loop invariants")
+		}
+		return env.withState(env.loop.pre).eval(args[0])
 	case "fresh":
 		// fresh(x): the reference / slice backing array / map x is nil or was allocated during this call (so writing
 		// through it cannot violate the function's frame)
